@@ -57,7 +57,9 @@ func UnwrapEthereumMsg(tx *sdk.Tx, ethHash common.Hash) (*MsgEthereumTx, error) 
 // BinSearch execute the binary search and hone in on an executable gas limit
 func BinSearch(lo, hi uint64, executable func(uint64) (bool, *MsgEthereumTxResponse, error)) (uint64, error) {
 	for lo+1 < hi {
-		mid := (hi + lo) / 2
+		// not (hi + lo) / 2: the sum wraps around for an allowance near the top of the uint64 range,
+		// mid then falls below lo and the search never terminates
+		mid := lo + (hi-lo)/2
 		failed, _, err := executable(mid)
 		// If the error is not nil(consensus error), it means the provided message
 		// call or transaction will never be accepted no matter how much gas it is
